@@ -1,9 +1,11 @@
 (* C08 -- the skipped-sequence list of db/skipped_sequence.go, abstracted as a list of closed
    ranges (lo,hi) kept in increasing order.  The third-party skip list (couchbasedeps/fast-skiplist)
-   is NOT modelled structurally: Get/Set/Remove/FrontKey/CompactList are modelled by their effect on the
-   set of sequences (membership, append of a range above every element, set difference with a range,
-   start of the first element, drop everything).  The correspondence harness compares the normalised
-   range list (adjacent ranges merged) after every operation. *)
+   is modelled as the list of its elements' keys (Start, End), not as a linked structure: Get/Set/Remove/
+   FrontKey/CompactList are modelled by their effect on that list (membership, append above every element
+   with the merge-into-last-element rule, set difference with a range element by element -- whole
+   element, trimmed start, trimmed end or split --, start of the first element, removal of the elements
+   that are old enough).  The correspondence harness compares the element list itself after every
+   operation (and the per-element timestamps through the bits given to [sk_split]). *)
 From SG Require Import Base.Prelude.
 Open Scope N_scope.
 
@@ -14,10 +16,35 @@ Definition in_rng (s : N) (r : rng) : bool := (fst r <=? s) && (s <=? snd r).
 (* SkippedSequenceSkiplist.Contains *)
 Definition sk_mem (s : N) (l : list rng) : bool := existsb (in_rng s) l.
 
-(* changeCache.PushSkipped -> SkipList.Set: only ever called with lo above every element (proved:
-   [inv_sk_below]), where Set appends (or extends the last element, the same set of sequences). *)
+(* SkipList.Set at the back of the list (changeCache.PushSkipped is only ever called with lo above every
+   element -- proved: [li_skbelow]): a range that continues the LAST element (backElem.End + 1 = Start)
+   extends that element, which also takes over the new timestamp; otherwise a new element is appended.
+   The list of elements is modelled structurally (one pair per skip-list element), because
+   CompactList abandons whole elements by their timestamp. *)
+Fixpoint sk_append (lo hi : N) (l : list rng) : list rng :=
+  match l with
+  | [] => [(lo, hi)]
+  | (a, b) :: r =>
+      match r with
+      | [] => if b + 1 =? lo then [(a, hi)] else [(a, b); (lo, hi)]
+      | _ :: _ => (a, b) :: sk_append lo hi r
+      end
+  end.
+
+(* changeCache.PushSkipped (startSeq > endSeq is refused) *)
 Definition sk_push (lo hi : N) (l : list rng) : list rng :=
-  if hi <? lo then l else l ++ [(lo, hi)].
+  if hi <? lo then l else sk_append lo hi l.
+
+(* SkipList.CompactList(timeNow, maxWait): every element whose timestamp is old enough is unlinked.
+   The clock is replaced by one adversarial bit per element, in list order (true = old enough);
+   result: (elements kept, elements abandoned). *)
+Fixpoint sk_split (bits : list bool) (l : list rng) : list rng * list rng :=
+  match l with
+  | [] => ([], [])
+  | r :: l' =>
+      let kd := sk_split (tl bits) l' in
+      if hd false bits then (fst kd, r :: snd kd) else (r :: fst kd, snd kd)
+  end.
 
 (* one range minus [lo,hi] *)
 Definition cut (lo hi : N) (r : rng) : list rng :=
